@@ -39,6 +39,11 @@ PIPES = {
     "buffer_accumulate": (lambda s, T: s.buffer(2).accumulate(add), lambda s: s.accumulate(add)),
     "partition_buffer_flatten": (lambda s, T: s.partition(2).buffer(1).flatten(), lambda s: s.partition(2).flatten()),
     "slice_buffer": (lambda s, T: s.slice(1, None, 1).buffer(1), lambda s: s.slice(1, None, 1)),
+    # one-to-many nodes directly in front of something that answers with a pending awaitable, fed by a producer that does not wait
+    # (always behind a node that keeps its own reference: a synchronous chain straight into an asynchronous consumer is
+    # known finding F06-emit, exercised by the aemit engine)
+    "pair_flatten_buffer": (lambda s, T: s.map(pair).flatten().buffer(1), lambda s: s.map(pair).flatten()),
+    "partition_flatten_rate": (lambda s, T: s.partition(2).flatten().rate_limit(1), lambda s: s.partition(2).flatten()),
 }
 
 
